@@ -28,7 +28,7 @@ type Rq struct {
 
 type Case struct {
 	Subject  string `json:"subject"`  // router gnew gnewown gadd
-	Recovery string `json:"recovery"` // none func status write log slog
+	Recovery string `json:"recovery"` // none func status write log slog nilled
 	Status   int    `json:"status"`
 	Trace    bool   `json:"trace"`
 	UseLate  bool   `json:"use_late"` // Use after the registrations instead of before
@@ -46,7 +46,7 @@ var (
 func gen(t *rapid.T) Case {
 	c := Case{
 		Subject:  rapid.SampledFrom([]string{"router", "gnew", "gnewown", "gnewboth", "gadd"}).Draw(t, "subject"),
-		Recovery: rapid.SampledFrom([]string{"none", "none", "func", "func", "func", "status", "status", "write", "log", "slog"}).Draw(t, "recovery"),
+		Recovery: rapid.SampledFrom([]string{"none", "none", "func", "func", "func", "status", "status", "write", "log", "slog", "nilled"}).Draw(t, "recovery"),
 		Status:   rapid.SampledFrom([]int{500, 503, 418}).Draw(t, "status"),
 		Trace:    rapid.Bool().Draw(t, "trace"),
 		UseLate:  rapid.Bool().Draw(t, "useLate"),
@@ -89,6 +89,9 @@ func build(c Case) *world {
 			w.recov = append(w.recov, v)
 			rw.WriteHeader(599)
 		}))
+	case "nilled":
+		// a recovery option followed by WithRecovery(nil): the last option wins, so there is no recovery
+		opts = append(opts, mux.WithStatusRecovery(c.Status), mux.WithRecovery(nil))
 	case "status":
 		opts = append(opts, mux.WithStatusRecovery(c.Status))
 	case "write": // the three reporting variants answer the status like WithStatusRecovery and write a stack somewhere
@@ -189,6 +192,9 @@ func (w *world) serve(c Case, q Rq, val any) *rig.Outcome {
 	return rig.Serve(w.h, req)
 }
 
+// noRecovery: no recovery option is in force for the routers of the case.
+func noRecovery(c Case) bool { return c.Recovery == "none" || c.Recovery == "nilled" }
+
 func summary(o *rig.Outcome) string {
 	s := fmt.Sprintf("%s/%s route=%q params=%v params-after-handler=%v status=%d mws=%v content-length=%q body-bytes=%d", o.BaseKind, o.BaseID, o.Pattern, o.Params, o.ParamsAfter, o.EffStatus(), o.Trace, o.Header.Get("Content-Length"), len(o.Body))
 	if o.SubOutcome != nil {
@@ -241,6 +247,15 @@ func check(c Case, st *rig.Stats) error {
 			switch {
 			case !o.Fired && gcalls != 0:
 				return rig.Violf("spurious-panic-or-recovery", "%s: no fault was raised but the group's recovery function ran", where)
+			case o.Fired && c.Recovery == "nilled" && !groupLevel:
+				// Group.New(..., WithStatusRecovery, WithRecovery(nil)): the router's last word is "no recovery", which
+				// overrides what the group was given - the panic reaches the caller and nobody's function runs
+				if !o.Panicked || o.PanicKind != "injected" || gcalls != 0 || calls != 0 {
+					return rig.Violf("panic-value-changed-or-swallowed", "%s: the router was made with ..., WithRecovery(nil): escaped=%v (%s), group function calls=%d, router function calls=%d", where, o.Panicked, o.PanicKind, gcalls, calls)
+				}
+				classes = append(classes, "fired:recovery-switched-off-by-nil")
+				firedBefore = true
+				continue
 			case o.Fired && (groupLevel || c.Recovery == "none"):
 				if o.Panicked || gcalls != 1 || calls != 0 || rig.ClassifyPanic(sub.grecov[len(sub.grecov)-1], val) != "injected" {
 					return rig.Violf("group-recovery", "%s: a panic where only the group's recovery function applies (its own not-found path, or a Group.New router that inherits it): escaped=%v, group function calls=%d, router function calls=%d", where, o.Panicked, gcalls, calls)
@@ -269,7 +284,7 @@ func check(c Case, st *rig.Stats) error {
 					classes = append(classes, "…with-parameters")
 				}
 			}
-		case c.Recovery == "none" || (c.Subject == "gnewown" && normal.RouterName == ""): // the group itself has no recovery option
+		case noRecovery(c) || (c.Subject == "gnewown" && normal.RouterName == ""): // the group itself has no recovery option
 			classes = append(classes, "fired:no-recovery")
 			if !o.Panicked || o.PanicKind != "injected" {
 				return rig.Violf("panic-value-changed-or-swallowed", "%s: without a recovery option the caller saw panicked=%v value %#v (%s), raised %#v", where, o.Panicked, o.PanicVal, o.PanicKind, val)
